@@ -1,5 +1,14 @@
 """C07 — how the parallel (dask) path of an observation is CODED -> `src_cfg : dask_cfg` (Model/Parallel.v).
 
+Round 2c: every function is read in NORMAL FORM (translator/c07_norm.py) and the rows anchor on API calls, parameters
+and attribute / subscript stores, comparing RESOLVED expressions -- never the name of a local variable, the statement
+layout, a helper boundary, a message or a comment.  Accepted as equal: private helpers of the same module / class inlined;
+single-assignment aliases and named intermediate results; module-level constants; guard clauses and inverted tests with
+swapped branches; conditional expression vs if/else assignment; `x = A` + `if c: x = B`; loops filling a fresh dict / list
+vs comprehensions vs dict(zip()); zip(count(), x) vs enumerate(x); list(map(f, x)); match vs if/elif; try/else-return;
+a trailing `continue`; annotations, docstrings, asserts, imports, logging.  The shapes below are written in that normal
+form (the local names in them are only illustrations).
+
 Extracted (every other shape fails closed):
 
  binding of values to parameter keys
@@ -60,6 +69,7 @@ from __future__ import annotations
 import ast
 from pathlib import Path
 
+from .c07_norm import Fn, Mod, leaves, match, normalise, pat
 from .common import HEADER, body_no_doc, fail, find_func, parse
 
 DASK = "pyxel/observation/observation_dask.py"
@@ -112,71 +122,107 @@ def zip_of(node, a: str, b: str) -> bool:
 
 
 # ------------------------------------------------------------------------------------------ binding
+#
+# Round 2c: the rows below anchor on API calls, parameters and attribute / subscript stores of NORMALISED functions
+# (translator/c07_norm.py: private helpers inlined, guard clauses, conditional expressions, loops <-> comprehensions,
+# match statements, try/else) and compare RESOLVED expressions (single-assignment aliases, named intermediate results
+# and module-level constants substituted).  No row reads the name of a local variable, a message or a comment.
+
+# the functions the rows anchor on by name: never inlined into their callers
+KEEP = {"_run_pipelines_array_to_datatree", "_run_pipelines_tuple_to_array", "_get_parameter_types",
+        "_get_short_dimension_names_new", "run_pipelines_with_dask", "convert_custom_data", "create_params",
+        "get_parameters_item", "run_pipeline"}
+
+
+def fn_of(tree, name: str, cls: str | None = None) -> Fn:
+    mod = tree if isinstance(tree, Mod) else Mod(tree)
+    return Fn(mod, find_func(mod.tree, name, cls), cls, KEEP)
+
+
+def kwr(fn: Fn, call: ast.Call, name: str):
+    """resolved keyword argument of an (unresolved) call node"""
+    v = kw(call, name)
+    return None if v is None else fn.R(v)
+
+
+def is_dict_of_zip(expr, a: str, b: str) -> bool:
+    """dict(zip(a, b)) -- the canonical form of the dict comprehension / of the loop filling an empty dict, too"""
+    m = match(pat("dict(zip(_A, _B))"), expr)
+    return m is not None and u(m["_A"]) == a and u(m["_B"]) == b
 
 
 def bind_row(tree) -> tuple[str, str]:
-    fn = find_func(tree, "_run_pipelines_array_to_datatree")
-    ps = params_of(fn)
+    fn = fn_of(tree, "_run_pipelines_array_to_datatree")
+    ps = fn.params()
     if "params_tuple" not in ps or "dimension_names" not in ps or "processor" not in ps:
-        fail(fn, "_run_pipelines_array_to_datatree parameters")
-    rep = calls(fn, lambda f: f.endswith(".replace") and f.split(".")[0] == "processor")
-    if len(rep) != 1 or len(rep[0].args) != 1 or rep[0].keywords or not isinstance(rep[0].args[0], ast.Name):
-        fail(fn, "expected exactly one processor.replace(<name>) in")
-    dct = rep[0].args[0].id
-    val = the_assign(fn, dct)
-    ok = False
-    if isinstance(val, ast.Call) and u(val.func) == "dict" and len(val.args) == 1 and not val.keywords:
-        ok = zip_of(val.args[0], "dimension_names", "params_tuple")
-    elif isinstance(val, ast.DictComp) and len(val.generators) == 1 and not val.generators[0].ifs:
-        g = val.generators[0]
-        ok = (zip_of(g.iter, "dimension_names", "params_tuple") and isinstance(g.target, ast.Tuple)
-              and [u(x) for x in g.target.elts] == [u(val.key), u(val.value)])
-    if not ok:
-        fail(val, "the dict given to processor.replace must be dict(zip(dimension_names, params_tuple))")
+        fail(fn.raw, "_run_pipelines_array_to_datatree parameters")
+    for p in ("params_tuple", "dimension_names", "processor"):
+        if fn.rebinds(p):
+            fail(fn.raw, f"{p} is rebound in")
+    rep = fn.calls(lambda f: f == "processor.replace")
+    if len(rep) != 1 or len(rep[0][1].args) != 1 or rep[0][1].keywords:
+        fail(fn.raw, "expected exactly one processor.replace(<mapping>) in")
+    if not is_dict_of_zip(rep[0][1].args[0], "dimension_names", "params_tuple"):
+        fail(rep[0][1].args[0], "the dict given to processor.replace must be dict(zip(dimension_names, params_tuple))")
     # the run must be started with the processor that received the values
-    newp = [t.id for t, v, _ in assigns(fn) if v is rep[0] and isinstance(t, ast.Name)]
-    runs = calls(fn, lambda f: f == "run_pipeline")
-    if len(newp) != 1 or len(runs) != 1 or u(kw(runs[0], "processor")) != newp[0]:
-        fail(fn, "run_pipeline must be given the processor returned by processor.replace(...) in")
+    runs = fn.calls(lambda f: f == "run_pipeline")
+    if len(runs) != 1 or u(kw(runs[0][1], "processor")) != u(rep[0][1]):
+        fail(fn.raw, "run_pipeline must be given the processor returned by processor.replace(...) in")
     # pass-through wrapper
-    wr = find_func(tree, "_run_pipelines_tuple_to_array")
-    inner = calls(wr, lambda f: f == "_run_pipelines_array_to_datatree")
-    if (len(inner) != 1 or inner[0].args or u(kw(inner[0], "params_tuple")) != "params_tuple"
-            or u(kw(inner[0], "dimension_names")) != "dimension_names"):
-        fail(wr, "_run_pipelines_tuple_to_array must pass params_tuple / dimension_names through")
+    wr = fn_of(tree, "_run_pipelines_tuple_to_array")
+    inner = wr.calls(lambda f: f == "_run_pipelines_array_to_datatree")
+    if (len(inner) != 1 or inner[0][1].args or u(kw(inner[0][1], "params_tuple")) != "params_tuple"
+            or u(kw(inner[0][1], "dimension_names")) != "dimension_names"
+            or wr.rebinds("params_tuple") or wr.rebinds("dimension_names")):
+        fail(wr.raw, "_run_pipelines_tuple_to_array must pass params_tuple / dimension_names through")
     return "BindPosition", "dimension_names"
 
 
+def _params_array(fn: Fn, uf: ast.Call):
+    """the array apply_ufunc maps over: `<P>.chunk(1)` where every alternative of <P> is parameter_mode.create_params(..)"""
+    if len(uf.args) < 2:
+        fail(uf, "apply_ufunc must map over the parameter array")
+    m = match(pat("_P.chunk(1)"), uf.args[1])
+    if m is None:
+        fail(uf.args[1], "apply_ufunc must map over <parameter array>.chunk(1)")
+    for leaf in leaves(m["_P"]):
+        if not (isinstance(leaf, ast.Call) and u(leaf.func) == "parameter_mode.create_params"):
+            fail(leaf, "the array apply_ufunc maps over is not the result of parameter_mode.create_params")
+    return m["_P"]
+
+
 def same_mapping_row(tree) -> bool:
-    fn = find_func(tree, "run_pipelines_with_dask")
-    if "dim_names" not in params_of(fn) or "parameter_mode" not in params_of(fn):
-        fail(fn, "run_pipelines_with_dask parameters")
-    for t, _, st in assigns(fn):
-        if isinstance(t, ast.Name) and t.id == "dim_names":
-            fail(st, "dim_names is rebound in run_pipelines_with_dask")
-    cps = calls(fn, lambda f: f == "parameter_mode.create_params")
+    fn = fn_of(tree, "run_pipelines_with_dask")
+    if "dim_names" not in fn.params() or "parameter_mode" not in fn.params():
+        fail(fn.raw, "run_pipelines_with_dask parameters")
+    if fn.rebinds("dim_names") or fn.rebinds("parameter_mode"):
+        fail(fn.raw, "dim_names / parameter_mode is rebound in run_pipelines_with_dask")
+    cps = fn.calls(lambda f: f == "parameter_mode.create_params")
     if not cps:
-        fail(fn, "no parameter_mode.create_params(...) call in")
-    for c in cps:
+        fail(fn.raw, "no parameter_mode.create_params(...) call in")
+    for _, c in cps:
         if c.args or u(kw(c, "dim_names")) != "dim_names":
             fail(c, "create_params must be called with dim_names=dim_names")
         extra = {k.arg for k in c.keywords} - {"dim_names"}
         if extra - {"processor"} or ("processor" in extra and u(kw(c, "processor")) != "processor"):
             fail(c, "unexpected argument of create_params")
-    first = calls(fn, lambda f: f == "_run_pipelines_array_to_datatree")
-    if len(first) != 1 or u(kw(first[0], "dimension_names")) != "dim_names":
-        fail(fn, "the metadata run must receive dimension_names=dim_names in")
-    uf = calls(fn, lambda f: f.endswith("apply_ufunc"))
+    first = fn.calls(lambda f: f == "_run_pipelines_array_to_datatree")
+    if len(first) != 1 or u(kw(first[0][1], "dimension_names")) != "dim_names":
+        fail(fn.raw, "the metadata run must receive dimension_names=dim_names in")
+    uf = fn.calls(lambda f: f.endswith("apply_ufunc"))
     if len(uf) != 1:
-        fail(fn, "expected one apply_ufunc call in")
-    if not uf[0].args or u(uf[0].args[0]) != "_run_pipelines_tuple_to_array":
-        fail(uf[0], "apply_ufunc must apply _run_pipelines_tuple_to_array")
-    if len(uf[0].args) < 2 or not u(uf[0].args[1]).startswith("params_dataarray"):
-        fail(uf[0], "apply_ufunc must map over params_dataarray")
-    kws = kw(uf[0], "kwargs")
-    if not isinstance(kws, ast.Dict):
-        fail(uf[0], "apply_ufunc kwargs must be a dict literal")
-    d = {u(k): u(v) for k, v in zip(kws.keys, kws.values)}
+        fail(fn.raw, "expected one apply_ufunc call in")
+    uf = uf[0][1]
+    if not uf.args or u(uf.args[0]) != "_run_pipelines_tuple_to_array":
+        fail(uf, "apply_ufunc must apply _run_pipelines_tuple_to_array")
+    _params_array(fn, uf)
+    kws = kw(uf, "kwargs")
+    if isinstance(kws, ast.Call) and u(kws.func) == "dict" and not kws.args and all(k.arg for k in kws.keywords):
+        d = {repr(k.arg): u(k.value) for k in kws.keywords}
+    elif isinstance(kws, ast.Dict) and all(k is not None for k in kws.keys):
+        d = {u(k): u(v) for k, v in zip(kws.keys, kws.values)}
+    else:
+        fail(uf, "apply_ufunc kwargs must be a dict literal")
     if d.get("'dimension_names'") != "dim_names":
         fail(kws, "apply_ufunc kwargs must pass 'dimension_names': dim_names")
     return True
@@ -186,6 +232,25 @@ def ordered_dicts(fn: ast.FunctionDef, roots: set[str]) -> set[str]:
     """names of dicts whose iteration order is the order of `roots` (a subsequence of it)"""
     good = set(roots)
     changed = True
+
+    def comp_ordered(v) -> bool:
+        """{key: .. for key in good} / {key: .. for key, _ in good.items()} / dict(good) / dict(good.items())"""
+        if isinstance(v, ast.Name) and v.id in good:          # an alias of an ordered dict
+            return True
+        if isinstance(v, ast.Call) and u(v.func) == "dict" and len(v.args) == 1 and not v.keywords:
+            a = v.args[0]
+            return (isinstance(a, ast.Name) and a.id in good) or (
+                isinstance(a, ast.Call) and u(a.func).endswith(".items") and isinstance(a.func.value, ast.Name)
+                and a.func.value.id in good and not a.args)
+        if isinstance(v, ast.DictComp) and len(v.generators) == 1 and not v.generators[0].ifs:
+            g = v.generators[0]
+            if isinstance(g.iter, ast.Name) and g.iter.id in good and u(v.key) == u(g.target):
+                return True
+            if (isinstance(g.iter, ast.Call) and u(g.iter.func).endswith(".items") and isinstance(g.iter.func.value, ast.Name)
+                    and g.iter.func.value.id in good and isinstance(g.target, ast.Tuple) and u(v.key) == u(g.target.elts[0])):
+                return True
+        return False
+
     while changed:
         changed = False
         # candidate dict names: assigned `{}` / `dict()` exactly once
@@ -193,8 +258,17 @@ def ordered_dicts(fn: ast.FunctionDef, roots: set[str]) -> set[str]:
             if not isinstance(t, ast.Name) or t.id in good:
                 continue
             name = t.id
+            once = sum(1 for tt, _, _ in assigns(fn) if isinstance(tt, ast.Name) and tt.id == name) == 1
+            mutated = any(isinstance(n, ast.Call) and u(n.func).startswith(name + ".") and u(n.func).split(".")[-1] in (
+                "update", "setdefault", "pop", "popitem", "clear", "move_to_end", "__setitem__") for n in ast.walk(fn)) \
+                or any(isinstance(tg, ast.Subscript) and u(tg.value) == name for tg, _, _ in assigns(fn)) \
+                or any(isinstance(n, ast.Delete) and any(name in u(x) for x in n.targets) for n in ast.walk(fn))
+            if once and not mutated and comp_ordered(v):
+                good.add(name)
+                changed = True
+                continue
             empty = (isinstance(v, ast.Dict) and not v.keys) or (isinstance(v, ast.Call) and u(v) == "dict()")
-            if not empty or sum(1 for tt, _, _ in assigns(fn) if isinstance(tt, ast.Name) and tt.id == name) != 1:
+            if not empty or not once:
                 continue
             # every mutation of `name`
             loops = []
@@ -238,157 +312,226 @@ def ordered_dicts(fn: ast.FunctionDef, roots: set[str]) -> set[str]:
 
 
 def names_order_row(tree) -> bool:
-    fn = find_func(tree, "_get_short_dimension_names_new")
+    f = fn_of(tree, "_get_short_dimension_names_new")
+    fn = f.node
     ps = params_of(fn)
     if len(ps) != 1:
         fail(fn, "_get_short_dimension_names_new must take one argument")
+    if f.rebinds(ps[0]):
+        fail(fn, "the argument is rebound in")
     good = ordered_dicts(fn, {ps[0]})
     rets = [n for n in ast.walk(fn) if isinstance(n, ast.Return)]
     if not rets:
         fail(fn, "no return in")
     for r in rets:
-        v = r.value
-        if isinstance(v, ast.Name) and v.id in good and v.id != ps[0]:
-            continue
-        if isinstance(v, ast.DictComp) and len(v.generators) == 1 and not v.generators[0].ifs:
-            g = v.generators[0]
-            if isinstance(g.iter, ast.Name) and g.iter.id in good and u(v.key) == u(g.target):
+        for v in leaves(r.value) if r.value is not None else [None]:
+            if isinstance(v, ast.Name) and v.id in good and v.id != ps[0]:
                 continue
-            if (isinstance(g.iter, ast.Call) and u(g.iter.func).endswith(".items") and isinstance(g.iter.func.value, ast.Name)
-                    and g.iter.func.value.id in good and isinstance(g.target, ast.Tuple) and u(v.key) == u(g.target.elts[0])):
-                continue
-        fail(r, "returned mapping is not known to keep the order of the argument")
+            if isinstance(v, ast.DictComp) and len(v.generators) == 1 and not v.generators[0].ifs:
+                g = v.generators[0]
+                if isinstance(g.iter, ast.Name) and g.iter.id in good and u(v.key) == u(g.target):
+                    continue
+                if (isinstance(g.iter, ast.Call) and u(g.iter.func).endswith(".items") and isinstance(g.iter.func.value, ast.Name)
+                        and g.iter.func.value.id in good and isinstance(g.target, ast.Tuple) and u(v.key) == u(g.target.elts[0])):
+                    continue
+            fail(r, "returned mapping is not known to keep the order of the argument")
     return True
 
 
 def types_order_row(tree) -> bool:
-    fn = find_func(tree, "_get_parameter_types", "Observation")
-    loops = [n for n in ast.walk(fn) if isinstance(n, ast.For)]
-    if len(loops) != 1 or u(loops[0].iter) != "self.parameter_mode.enabled_steps" or not isinstance(loops[0].target, ast.Name):
-        fail(fn, "_get_parameter_types must be one loop over self.parameter_mode.enabled_steps")
-    var = loops[0].target.id
-    body = loops[0].body
-    ok = False
-    if len(body) == 1 and isinstance(body[0], ast.Expr) and isinstance(body[0].value, ast.Call):
-        c = body[0].value
-        if u(c.func) == "self.parameter_types.update" and len(c.args) == 1 and isinstance(c.args[0], ast.Dict) \
-                and [u(k) for k in c.args[0].keys] == [f"{var}.key"]:
-            ok = True
-    if len(body) == 1 and isinstance(body[0], ast.Assign) and u(body[0].targets[0]) == f"self.parameter_types[{var}.key]":
-        ok = True
+    f = fn_of(tree, "_get_parameter_types", "Observation")
+    fn = f.node
     rets = [n for n in ast.walk(fn) if isinstance(n, ast.Return)]
-    if not ok or len(rets) != 1 or u(rets[0].value) != "self.parameter_types":
-        fail(fn, "_get_parameter_types must insert step.key per enabled step and return self.parameter_types")
-    run = find_func(tree, "run_pipelines", "Observation")
-    if u(the_assign(run, "types")) != "self._get_parameter_types()":
-        fail(run, "run_pipelines: types = self._get_parameter_types()")
-    if u(the_assign(run, "dim_names")) != "_get_short_dimension_names_new(types)":
-        fail(run, "run_pipelines: dim_names = _get_short_dimension_names_new(types)")
-    dk = calls(run, lambda f: f == "run_pipelines_with_dask")
-    if len(dk) != 1 or dk[0].args or u(kw(dk[0], "dim_names")) != "dim_names" \
-            or u(kw(dk[0], "parameter_mode")) != "self.parameter_mode":
-        fail(run, "run_pipelines must call run_pipelines_with_dask(dim_names=dim_names, parameter_mode=self.parameter_mode, ..)")
+    if len(rets) != 1:
+        fail(fn, "_get_parameter_types must have one return")
+    ok = False
+    # (1) the returned mapping IS a dict built per enabled step, keyed by step.key (comprehension, dict(zip()) over a
+    #     comprehension of the keys, or a loop filling a fresh dict -- all normalised to a comprehension)
+    rv = f.R(rets[0].value)
+    if match(pat("{_S.key: _ANY for _S in self.parameter_mode.enabled_steps}"), rv) is not None:
+        ok = True
+    # (2) the loop that updates the dict kept on the instance (the shape before the round-2 repair)
+    loops = [n for n in ast.walk(fn) if isinstance(n, ast.For)]
+    if not ok and len(loops) == 1 and u(f.R(loops[0].iter)) == "self.parameter_mode.enabled_steps" \
+            and isinstance(loops[0].target, ast.Name) and u(rets[0].value) == "self.parameter_types":
+        var = loops[0].target.id
+        body = loops[0].body
+        if len(body) == 1 and isinstance(body[0], ast.Expr) and isinstance(body[0].value, ast.Call):
+            c = body[0].value
+            if u(c.func) == "self.parameter_types.update" and len(c.args) == 1 and isinstance(c.args[0], ast.Dict) \
+                    and [u(k) for k in c.args[0].keys] == [f"{var}.key"]:
+                ok = True
+        if len(body) == 1 and isinstance(body[0], ast.Assign) and u(body[0].targets[0]) == f"self.parameter_types[{var}.key]":
+            ok = True
+    if not ok:
+        fail(fn, "_get_parameter_types must return a mapping with one entry step.key per enabled step, in their order")
+    run = fn_of(tree, "run_pipelines", "Observation")
+    dk = run.calls(lambda f_: f_ == "run_pipelines_with_dask")
+    if len(dk) != 1 or dk[0][1].args:
+        fail(run.raw, "run_pipelines must call run_pipelines_with_dask(dim_names=.., parameter_mode=.., ..) once")
+    if u(kw(dk[0][1], "dim_names")) != "_get_short_dimension_names_new(self._get_parameter_types())" \
+            or u(kw(dk[0][1], "parameter_mode")) != "self.parameter_mode":
+        fail(dk[0][1], "run_pipelines must hand _get_short_dimension_names_new(self._get_parameter_types()) and "
+                       "self.parameter_mode to run_pipelines_with_dask")
     return True
 
 
 # ------------------------------------------------------------------------------------------ the three modes
 
+STEPS = "{_S.key: _L for _S in self.enabled_steps}"
 
-def all_steps_of(fn) -> ast.AST:
-    """`all_steps = {step.key: <expr> for step in self.enabled_steps}` -> <expr>; checks params_names"""
-    v = the_assign(fn, "all_steps")
-    if not (isinstance(v, ast.DictComp) and len(v.generators) == 1 and not v.generators[0].ifs
-            and u(v.generators[0].iter) == "self.enabled_steps" and isinstance(v.generators[0].target, ast.Name)
-            and u(v.key) == v.generators[0].target.id + ".key"):
-        fail(v, "all_steps must be {step.key: .. for step in self.enabled_steps}")
-    pn = the_assign(fn, "params_names")
-    if not (isinstance(pn, ast.ListComp) and len(pn.generators) == 1 and not pn.generators[0].ifs
-            and u(pn.generators[0].iter) == "all_steps" and isinstance(pn.generators[0].target, ast.Name)
-            and u(pn.elt) == f"dim_names[{pn.generators[0].target.id}]"):
-        fail(pn, "params_names must be [dim_names[key] for key in all_steps]")
-    return v
+
+def steps_dict(node, what: str):
+    """`{step.key: <level expr> for step in self.enabled_steps}` -> (text of the dict, level expr with the loop
+    variable written `step`)"""
+    m = match(pat(STEPS), node)
+    if m is None:
+        fail(node, f"{what}: expected {{step.key: .. for step in self.enabled_steps}}")
+    var = u(m["_S"])
+
+    class Ren(ast.NodeTransformer):
+        def visit_Name(self, n):
+            return ast.Name(id="step", ctx=n.ctx) if n.id == var else n
+
+    import copy as _copy
+    return u(node), u(Ren().visit(_copy.deepcopy(m["_L"])))
+
+
+def names_by_key(fn: Fn, node, steps_text: str):
+    """`[dim_names[key] for key in <the steps dict>]`"""
+    m = match(pat("[dim_names[_K] for _K in _D]"), node)
+    if m is None or u(m["_D"]) != steps_text:
+        fail(node, "the dimension names must be [dim_names[key] for key in all_steps] (looked up BY KEY, in the order "
+                   "of the dict the tuples are built from)")
+
+
+def check_all_name_lookups(fn: Fn, steps_text: str):
+    """every `dim_names[..]` of the function is such a by-key lookup over the steps dict"""
+    if fn.rebinds("dim_names"):
+        fail(fn.raw, "dim_names is rebound in")
+    subs = [n for n in ast.walk(fn.node) if isinstance(n, ast.Subscript) and u(n.value) == "dim_names"]
+    comps = [n for n in ast.walk(fn.node) if isinstance(n, ast.ListComp) and match(pat("[dim_names[_K] for _K in _D]"), n)]
+    if not comps or len(subs) != len(comps):
+        fail(fn.raw, "dim_names must only be read as [dim_names[key] for key in all_steps] in")
+    for c in comps:
+        names_by_key(fn, fn.R(c), steps_text)
 
 
 def product_row(tree) -> str:
-    fn = find_func(tree, "create_params", "ProductMode")
-    dc = all_steps_of(fn)
-    var = dc.generators[0].target.id
-    lv = u(dc.value)
-    if lv == f"list({var})":
+    fn = fn_of(tree, "create_params", "ProductMode")
+    fp = fn.calls(lambda f: f.endswith("MultiIndex.from_product"))
+    if len(fp) != 1 or len(fp[0][1].args) != 1:
+        fail(fn.raw, "ProductMode.create_params must build one MultiIndex.from_product(<levels>, names=<names>)")
+    c = fp[0][1]
+    m = match(pat("list(_D.values())"), c.args[0])
+    if m is None:
+        fail(c.args[0], "the levels must be list(all_steps.values())")
+    steps_text, lv = steps_dict(m["_D"], "ProductMode.create_params")
+    if lv == "list(step)":
         kind = "LevelsRaw"
-    elif lv == f"list(dict.fromkeys({var}))":
+    elif lv == "list(dict.fromkeys(step))":
         kind = "LevelsDedup"
     else:
-        fail(dc.value, "unknown level expression in ProductMode.create_params")
-    fp = calls(fn, lambda f: f.endswith("MultiIndex.from_product"))
-    if len(fp) != 1 or [u(a) for a in fp[0].args] != ["list(all_steps.values())"] or u(kw(fp[0], "names")) != "params_names":
-        fail(fn, "ProductMode.create_params must build MultiIndex.from_product(list(all_steps.values()), names=params_names)")
+        fail(m["_D"], "unknown level expression in ProductMode.create_params")
+    if kw(c, "names") is None:
+        fail(c, "MultiIndex.from_product(.., names=..)")
+    names_by_key(fn, kw(c, "names"), steps_text)
+    check_all_name_lookups(fn, steps_text)
     return kind
 
 
+def _custom_values_store(fn: Fn):
+    """the value stored under the column "custom_values" (what the cells of the parameter array hold)"""
+    st = [n for n in ast.walk(fn.node) if isinstance(n, ast.Assign) and len(n.targets) == 1
+          and isinstance(n.targets[0], ast.Subscript) and isinstance(n.targets[0].slice, ast.Constant)
+          and n.targets[0].slice.value == "custom_values"]
+    if len(st) != 1:
+        fail(fn.raw, "expected one store <frame>['custom_values'] = <rows> in")
+    return fn.R(st[0].value)
+
+
 def sequential_row(tree, obs_tree) -> str:
-    fn = find_func(tree, "create_params", "SequentialMode")
-    dc = all_steps_of(fn)
-    if u(dc.value) != f"list({dc.generators[0].target.id})":
-        fail(dc.value, "unknown value expression in SequentialMode.create_params")
-    v = the_assign(fn, "params_sequential_list")
-    kind = None
-    if isinstance(v, ast.Call) and u(v.func) == "list" and len(v.args) == 1:
-        z = v.args[0]
-        if (isinstance(z, ast.Call) and u(z.func) == "zip" and [u(a) for a in z.args] == ["*all_steps.values()"]
-                and all(k.arg == "strict" for k in z.keywords)):
-            kind = "SeqZip"
-    if isinstance(v, ast.ListComp) and len(v.generators) == 1 and not v.generators[0].ifs:
-        g = v.generators[0]
-        e = v.elt
-        if (isinstance(g.target, ast.Name) and u(g.iter) in ("self.get_parameters_item(processor=processor)",
-                                                            "self.get_parameters_item(processor)")
-                and isinstance(e, ast.Call) and u(e.func) == "tuple" and len(e.args) == 1
-                and isinstance(e.args[0], ast.GeneratorExp) and len(e.args[0].generators) == 1
-                and not e.args[0].generators[0].ifs and u(e.args[0].generators[0].iter) == "all_steps"
-                and u(e.args[0].elt) == f"{g.target.id}.parameters[{u(e.args[0].generators[0].target)}]"):
+    fn = fn_of(tree, "create_params", "SequentialMode")
+    v = _custom_values_store(fn)
+    kind = steps_text = None
+    m = match(pat("list(zip(*_D.values()))"), v)
+    if m is not None:
+        steps_text, lv = steps_dict(m["_D"], "SequentialMode.create_params")
+        if lv != "list(step)":
+            fail(m["_D"], "unknown value expression in SequentialMode.create_params")
+        kind = "SeqZip"
+    for p in ("[tuple((_E.parameters[_K] for _K in _D)) for _E in self.get_parameters_item(processor=processor)]",
+              "[tuple((_E.parameters[_K] for _K in _D)) for _E in self.get_parameters_item(processor)]",
+              "[tuple([_E.parameters[_K] for _K in _D]) for _E in self.get_parameters_item(processor=processor)]"):
+        m = match(pat(p), v)
+        if m is not None:
+            steps_text, _ = steps_dict(m["_D"], "SequentialMode.create_params")
             # ... and the non-dask path runs the very same generator
-            run = find_func(obs_tree, "run_pipelines", "Observation")
-            if not calls(run, lambda f: f == "self.parameter_mode.get_parameters_item"):
-                fail(run, "the non-dask path does not call parameter_mode.get_parameters_item in")
+            run = fn_of(obs_tree, "run_pipelines", "Observation")
+            if not run.calls(lambda f: f == "self.parameter_mode.get_parameters_item"):
+                fail(run.raw, "the non-dask path does not call parameter_mode.get_parameters_item in")
             kind = "SeqEnumerate"
     if kind is None:
         fail(v, "unknown row expression in SequentialMode.create_params")
+    if fn.rebinds("processor"):
+        fail(fn.raw, "processor is rebound in")
+    check_all_name_lookups(fn, steps_text)
     return kind
 
 
 def custom_row(tree) -> str:
-    fn = find_func(tree, "create_params", "CustomMode")
-    dc = all_steps_of(fn)
-    if u(dc.value) != f"list({dc.generators[0].target.id})":
-        fail(dc.value, "unknown value expression in CustomMode.create_params")
-    passed = u(the_assign(fn, "params_custom_list"))
-    cc = calls(fn, lambda f: f == "convert_custom_data")
-    if (len(cc) != 1 or cc[0].args or u(kw(cc[0], "custom_data")) != "self.custom_data"
-            or u(kw(cc[0], "params_custom_list")) != "params_custom_list" or u(kw(cc[0], "params_names")) != "params_names"):
-        fail(fn, "CustomMode.create_params must call convert_custom_data(custom_data=self.custom_data, "
-                 "params_custom_list=params_custom_list, params_names=params_names)")
-    conv = find_func(tree, "convert_custom_data")
-    loops = [n for n in conv.body if isinstance(n, ast.For)]
+    fn = fn_of(tree, "create_params", "CustomMode")
+    cc = fn.calls(lambda f: f == "convert_custom_data")
+    if len(cc) != 1 or cc[0][1].args or {k.arg for k in cc[0][1].keywords} != {"custom_data", "params_custom_list", "params_names"} \
+            or u(kw(cc[0][1], "custom_data")) != "self.custom_data":
+        fail(fn.raw, "CustomMode.create_params must call convert_custom_data(custom_data=self.custom_data, "
+                     "params_custom_list=.., params_names=..)")
+    names = kw(cc[0][1], "params_names")
+    m = match(pat("[dim_names[_K] for _K in _D]"), names)
+    if m is None:
+        fail(names, "params_names must be [dim_names[key] for key in all_steps]")
+    steps_text, _ = steps_dict(m["_D"], "CustomMode.create_params")
+    check_all_name_lookups(fn, steps_text)
+    lst = kw(cc[0][1], "params_custom_list")
+    passed = None
+    m = match(pat("list(_D.values())"), lst)
+    if m is not None and steps_dict(m["_D"], "CustomMode.create_params") == (steps_text, "list(step)"):
+        passed = "levels"
+    if match(pat("[_S.values for _S in self.enabled_steps]"), lst) is not None:
+        passed = "placeholders"
+    conv = fn_of(tree, "convert_custom_data")
+    if conv.rebinds("params_names") or conv.rebinds("params_custom_list"):
+        fail(conv.raw, "params_names / params_custom_list is rebound in")
+    loops = [n for n in conv.node.body if isinstance(n, ast.For)]
     if len(loops) != 1:
-        fail(conv, "convert_custom_data must have one top-level loop")
+        fail(conv.raw, "convert_custom_data must have one top-level loop")
     lp = loops[0]
-    if not (isinstance(lp.iter, ast.Call) and u(lp.iter.func) == "zip"
-            and [u(a) for a in lp.iter.args] == ["params_names", "params_custom_list"]
+    if not (match(pat("zip(params_names, params_custom_list)"), conv.R(lp.iter)) is not None
             and isinstance(lp.target, ast.Tuple) and len(lp.target.elts) == 2):
         fail(lp, "convert_custom_data must loop over zip(params_names, params_custom_list)")
     pvar = u(lp.target.elts[1])
     ifs = [n for n in lp.body if isinstance(n, ast.If)]
     if len(ifs) != 1 or not ifs[0].orelse:
         fail(lp, "convert_custom_data loop must be one if/else")
-    test = u(ifs[0].test)
-    inc1 = [u(n) for n in ifs[0].body if isinstance(n, ast.AugAssign)]
-    inc2 = [u(n) for n in ifs[0].orelse if isinstance(n, ast.AugAssign)]
-    if inc1 != ["idx += 1"] or inc2 != [f"idx += len({pvar})"]:
-        fail(ifs[0], "convert_custom_data must advance idx by 1 / by len(params)")
-    if test == f"len({pvar}) == 1" and passed == "list(all_steps.values())":
+    test = u(conv.R(ifs[0].test))
+
+    def incs(block):
+        out = []
+        for n in block:
+            if isinstance(n, ast.AugAssign) and isinstance(n.op, ast.Add) and isinstance(n.target, ast.Name):
+                out.append((n.target.id, u(conv.R(n.value))))
+            elif isinstance(n, ast.Assign) and len(n.targets) == 1 and isinstance(n.targets[0], ast.Name):
+                mm = match(pat("_X + _Y"), n.value)
+                if mm is not None and u(mm["_X"]) == n.targets[0].id:
+                    out.append((n.targets[0].id, u(conv.R(mm["_Y"]))))
+        return out
+
+    inc1, inc2 = incs(ifs[0].body), incs(ifs[0].orelse)
+    if len(inc1) != 1 or len(inc2) != 1 or inc1[0][0] != inc2[0][0] or inc1[0][1] != "1" or inc2[0][1] != f"len({pvar})":
+        fail(ifs[0], "convert_custom_data must advance the column offset by 1 / by len(params)")
+    if test == f"len({pvar}) == 1" and passed == "levels":
         return "ByLength"
-    if test in (f"{pvar} == '_'", f"'_' == {pvar}") and passed == "[step.values for step in self.enabled_steps]":
+    if test in (f"{pvar} == '_'", f"'_' == {pvar}") and passed == "placeholders":
         return "ByPlaceholder"
     fail(ifs[0].test, f"unknown scalar test / argument combination ({passed!r}) in convert_custom_data")
 
@@ -398,80 +541,103 @@ def custom_row(tree) -> str:
 
 def file_index_row(tree) -> bool:
     """one task per cell; file index = row-major position; the index reaches run_pipeline unchanged"""
-    fn = find_func(tree, "run_pipelines_with_dask")
-    cands = [v for t, v, _ in assigns(fn) if isinstance(t, ast.Name) and t.id == "output_filename_indices"
-             and not (isinstance(v, ast.Constant) and v.value is None)]
+    fn = fn_of(tree, "run_pipelines_with_dask")
+    uf = fn.calls(lambda f: f.endswith("apply_ufunc"))
+    if len(uf) != 1:
+        fail(fn.raw, "expected one apply_ufunc call in")
+    uf = uf[0][1]
+    parr = u(_params_array(fn, uf))
+    if len(uf.args) != 3:
+        fail(uf, "apply_ufunc must map over the parameter array and the file index array")
+    cands = [x for x in leaves(uf.args[2]) if not (isinstance(x, ast.Constant) and x.value is None)]
     if len(cands) != 1:
-        fail(fn, "expected one non-None assignment to output_filename_indices in")
-    txt = u(cands[0])
-    da = [c for c in ast.walk(cands[0]) if isinstance(c, ast.Call) and u(c.func).endswith("DataArray")]
-    if (len(da) != 1 or not da[0].args
-            or u(da[0].args[0]) != "np.arange(params_dataarray.size).reshape(params_dataarray.shape)"
-            or u(kw(da[0], "dims")) != "params_dataarray.dims"):
-        fail(cands[0], "file index must be DataArray(np.arange(size).reshape(shape), dims=params_dataarray.dims, ..)")
-    if not txt.endswith(".chunk(1)") or ".T" in txt.replace(".chunk", "") or "transpose" in txt:
-        fail(cands[0], "file index must be chunked one cell per task and not transposed")
-    uf = calls(fn, lambda f: f.endswith("apply_ufunc"))[0]
-    if [u(a) for a in uf.args[1:]] != ["params_dataarray.chunk(1)", "output_filename_indices"]:
-        fail(uf, "apply_ufunc must map over params_dataarray.chunk(1) and output_filename_indices")
+        fail(uf.args[2], "expected one way of building the file index array")
+    idx = cands[0]
+    txt = u(idx)
+    da = [c for c in ast.walk(idx) if isinstance(c, ast.Call) and u(c.func).endswith("DataArray")]
+    m = match(pat("_ANY(np.arange(_P.size).reshape(_P.shape), dims=_P.dims, **_K)"), da[0]) if len(da) == 1 else None
+    if m is None or u(m["_P"]) != parr:
+        fail(idx, "file index must be DataArray(np.arange(size).reshape(shape), dims=<parameter array>.dims, ..)")
+    if not txt.endswith(".chunk(1)") or ".T." in txt or txt.endswith(".T") or "transpose" in txt:
+        fail(idx, "file index must be chunked one cell per task and not transposed")
     if u(kw(uf, "vectorize")) != "True" or u(kw(uf, "input_core_dims")) != "[[], []]":
         fail(uf, "apply_ufunc must be vectorized over scalar cells")
-    wr = find_func(tree, "_run_pipelines_tuple_to_array")
-    ps = params_of(wr)
-    if ps[:2] != ["params_tuple", "output_filename_suffixes"]:
-        fail(wr, "_run_pipelines_tuple_to_array(params_tuple, output_filename_suffixes, ..)")
-    inner = calls(wr, lambda f: f == "_run_pipelines_array_to_datatree")[0]
-    if u(kw(inner, "output_filename_suffix")) != "output_filename_suffixes":
-        fail(inner, "the file index must be handed to _run_pipelines_array_to_datatree")
-    one = find_func(tree, "_run_pipelines_array_to_datatree")
-    rp = calls(one, lambda f: f == "run_pipeline")[0]
-    if u(kw(rp, "output_filename_suffix")) != "output_filename_suffix" or u(kw(rp, "outputs")) != "outputs":
-        fail(rp, "the file index must be handed to run_pipeline as an argument of the call")
+    wr = fn_of(tree, "_run_pipelines_tuple_to_array")
+    ps = wr.params()
+    if ps[:2] != ["params_tuple", "output_filename_suffixes"] or wr.rebinds("output_filename_suffixes"):
+        fail(wr.raw, "_run_pipelines_tuple_to_array(params_tuple, output_filename_suffixes, ..)")
+    inner = wr.calls(lambda f: f == "_run_pipelines_array_to_datatree")
+    if len(inner) != 1 or u(kw(inner[0][1], "output_filename_suffix")) != "output_filename_suffixes":
+        fail(wr.raw, "the file index must be handed to _run_pipelines_array_to_datatree")
+    one = fn_of(tree, "_run_pipelines_array_to_datatree")
+    rp = one.calls(lambda f: f == "run_pipeline")
+    if len(rp) != 1 or u(kw(rp[0][1], "output_filename_suffix")) != "output_filename_suffix" \
+            or u(kw(rp[0][1], "outputs")) != "outputs" or one.rebinds("output_filename_suffix") or one.rebinds("outputs"):
+        fail(one.raw, "the file index must be handed to run_pipeline as an argument of the call")
     return True
 
 
 def islands_row(tree) -> bool:
-    fn = find_func(tree, "_build", "ArchipelagoDataTree")
-    top = [n for n in fn.body if isinstance(n, ast.If) and u(n.test) == "self.parallel"]
-    if len(top) != 1 or not top[0].orelse:
-        fail(fn, "_build must have one `if self.parallel: .. else: ..`")
-
-    def branch(stmts, mapper):
-        its = [(t, v) for st in stmts for t, v, _ in assigns(st) if isinstance(t, ast.Name) and t.id == "it"]
-        if len(its) != 1 or u(its[0][1]) != f"{mapper}(create_island, seeds)":
-            fail(stmts[0], f"islands must be created with it = {mapper}(create_island, seeds)")
-        loops = [n for st in stmts for n in ast.walk(st) if isinstance(n, ast.For)]
-        if len(loops) != 1:
-            fail(stmts[0], "one loop over the created islands expected")
-        lp = loops[0]
-        it = lp.iter
-        ok_iter = u(it) == "it" or (isinstance(it, ast.Call) and u(it.func) == "tqdm" and it.args and u(it.args[0]) == "it")
-        if not ok_iter or len(lp.body) != 1 or u(lp.body[0]) != f"self._pygmo_archi.push_back({u(lp.target)})":
-            fail(lp, "islands must be pushed in the order the mapper yields them")
-
-    withs = [n for n in top[0].body if isinstance(n, ast.With)]
-    if len(withs) != 1 or "ThreadPoolExecutor" not in u(withs[0].items[0].context_expr) \
-            or u(withs[0].items[0].optional_vars) != "executor":
-        fail(top[0], "parallel branch must use `with ThreadPoolExecutor(..) as executor`")
-    branch(withs[0].body, "executor.map")
-    branch(top[0].orelse, "map")
+    """every island pushed to the archipelago comes from ONE loop over an order-preserving mapper -- the builtin `map` or
+    the `.map` of a pool executor bound by `with` -- applied to (island factory, seeds), pushed as yielded"""
+    fn = fn_of(tree, "_build", "ArchipelagoDataTree")
+    pushes = [n for n, _ in fn.calls(lambda f: f == "self._pygmo_archi.push_back")]
+    if not pushes:
+        fail(fn.raw, "no self._pygmo_archi.push_back(..) in")
+    nested = {n.name for n in fn.node.body if isinstance(n, ast.FunctionDef)}
+    pairs = set()
+    for p in pushes:
+        lp = fn.res.enclosing(p, ast.For)
+        if lp is None or len(p.args) != 1 or p.keywords or u(p.args[0]) != u(lp.target) or len(lp.body) != 1 \
+                or not (isinstance(lp.body[0], ast.Expr) and lp.body[0].value is p) or lp.orelse:
+            fail(lp or p, "islands must be pushed in the order the mapper yields them")
+        if fn.res.enclosing(lp, (ast.For, ast.While)) is not None:
+            fail(lp, "the loop pushing the islands is nested in another loop")
+        it = fn.R(lp.iter)
+        m = match(pat("tqdm(_I, **_K)"), it)
+        if m is not None:
+            it = m["_I"]
+        for leaf in leaves(it):
+            mm = match(pat("map(_F, _S)"), leaf)
+            if mm is None:
+                mm = match(pat("_E.map(_F, _S)"), leaf)
+                if mm is None or not isinstance(mm["_E"], ast.Name):
+                    fail(leaf, "islands must be created with map(create_island, seeds) / executor.map(create_island, seeds)")
+                cm = fn.res.with_binding(mm["_E"].id, lp)
+                if cm is None:
+                    fail(leaf, "the executor must be bound by `with .. as <name>` around the loop")
+                for alt in leaves(fn.R(cm)):
+                    if not ((isinstance(alt, ast.Call) and u(alt.func).split(".")[-1] in ("ThreadPoolExecutor", "ProcessPoolExecutor"))
+                            or u(alt) in ("nullcontext()", "contextlib.nullcontext()")):
+                        fail(alt, "unknown kind of executor")
+            if u(mm["_F"]) not in nested:
+                fail(leaf, "the mapped function must be the island factory defined in _build")
+            pairs.add((u(mm["_F"]), u(mm["_S"])))
+    if len(pairs) != 1:
+        fail(fn.raw, "every branch must map the same factory over the same seeds in")
     return True
 
 
 def bfe_row(tree) -> bool:
-    fn = find_func(tree, "__call__", "DaskBFE")
-    fa = calls(fn, lambda f: f.endswith("from_array"))
-    if (len(fa) != 1 or not fa[0].args or u(fa[0].args[0]) != "dvs_1d.reshape((-1, ndims_dvs))"
-            or u(kw(fa[0], "chunks")) != "(chunk_size, ndims_dvs)"):
-        fail(fn, "DaskBFE must cut dvs_1d.reshape((-1, ndims_dvs)) into chunks (chunk_size, ndims_dvs)")
-    cs = [u(v) for t, v, _ in assigns(fn) if isinstance(t, ast.Name) and t.id == "chunk_size"]
-    if sorted(cs) != sorted(["max(1, num_fitness // 10)", "self._chunk_size"]):
-        fail(fn, "DaskBFE chunk size must be max(1, num_fitness // 10) or the configured one")
-    if u(the_assign(fn, "fitness_1d")) != "fitness_2d.ravel()" or u(the_assign(fn, "fitness_2d")) != "fitness_func(dvs_2d)":
-        fail(fn, "DaskBFE must return fitness_func(dvs_2d).ravel()")
-    rets = [n for n in ast.walk(fn) if isinstance(n, ast.Return)]
-    if len(rets) != 1 or u(rets[0].value) != "fitness_1d":
-        fail(fn, "DaskBFE must return fitness_1d")
+    fn = fn_of(tree, "__call__", "DaskBFE")
+    ps = fn.params()
+    if len(ps) != 3 or any(fn.rebinds(p) for p in ps):
+        fail(fn.raw, "DaskBFE.__call__(self, prob, dvs_1d)")
+    prob, dvs = ps[1], ps[2]
+    fa = fn.calls(lambda f: f.endswith("from_array"))
+    m = match(pat(f"_ANY({dvs}.reshape((-1, {prob}.get_nx())), chunks=(_CS, {prob}.get_nx()))"), fa[0][1]) if len(fa) == 1 else None
+    if m is None:
+        fail(fn.raw, "DaskBFE must cut dvs_1d.reshape((-1, nx)) into chunks (chunk_size, nx)")
+    cs = u(m["_CS"])
+    if cs not in (f"max(1, {prob}.get_nf() // 10) if self._chunk_size is None else self._chunk_size",):
+        fail(m["_CS"], "DaskBFE chunk size must be max(1, num_fitness // 10) or the configured one")
+    rets = [n for n in ast.walk(fn.node) if isinstance(n, ast.Return) and hasattr(n, "_pos")]
+    if len(rets) != 1:
+        fail(fn.raw, "DaskBFE must have one return")
+    rv = fn.R(rets[0].value)
+    mm = match(pat("_G(_X).ravel()"), rv)
+    if mm is None or u(mm["_X"]) != u(fa[0][1]) or match(pat("_ANY.gufunc(_ANY.fitness, **_K)"), mm["_G"]) is None:
+        fail(rv, "DaskBFE must return <gufunc of the problem's fitness>(dvs_2d).ravel()")
     return True
 
 
@@ -638,7 +804,7 @@ def _rebuilt(val, state: str, gtab, attr: str):
     return kept
 
 
-def _hook_row(cls: ast.ClassDef, ancestors=()):
+def _hook_row(cls: ast.ClassDef, ancestors=(), mods=None):
     """the row of one class: its own hooks or the nearest inherited ones (ancestors = the scanned base classes, nearest
     first), judged against every attribute the __init__ of the class and of its ancestors set"""
     chain = [cls, *ancestors]
@@ -652,7 +818,26 @@ def _hook_row(cls: ast.ClassDef, ancestors=()):
     gs, ss = meths.get("__getstate__"), meths.get("__setstate__")
     if gs is None and ss is None:
         return None
-    inits = [n for c in chain for n in c.body if isinstance(n, ast.FunctionDef) and n.name == "__init__"]
+    if mods:
+        # the hooks are read in normal form (private helpers inlined, annotations / logging / docstrings dropped, guard
+        # clauses, loops filling a fresh dict as comprehensions)
+        def normal(fn):
+            owner = next((c for c in chain if fn in c.body), None)
+            if fn is None or owner is None or id(owner) not in mods:
+                return fn
+            return normalise(fn, mods[id(owner)], owner.name, KEEP)
+        gs, ss = normal(gs), normal(ss)
+    raw_inits = [n for c in chain for n in c.body if isinstance(n, ast.FunctionDef) and n.name == "__init__"]
+    inits = [normal(n) for n in raw_inits] if mods else raw_inits
+
+    def private_calls(fn) -> set:
+        return {n.func.attr for n in ast.walk(fn) if isinstance(n, ast.Call) and isinstance(n.func, ast.Attribute)
+                and isinstance(n.func.value, ast.Name) and n.func.value.id == "self" and n.func.attr.startswith("_")} if fn else set()
+    # private helper methods that were inlined into __init__ / __setstate__ are part of them, not "other methods"
+    raw_ss = meths.get("__setstate__")
+    inlined = set()
+    for raw, norm in [(raw_ss, ss)] + list(zip(raw_inits, inits)):
+        inlined |= private_calls(raw) - private_calls(norm)
     if not inits:
         fail(cls, f"class {cls.name} has pickle hooks but no __init__ among the scanned classes")
     init: dict = {}
@@ -668,7 +853,10 @@ def _hook_row(cls: ast.ClassDef, ancestors=()):
     stateful: set = set()
     for c in chain:
         for fn in c.body:
-            if isinstance(fn, (ast.FunctionDef, ast.AsyncFunctionDef)) and fn.name not in ("__init__", "__setstate__", "__getstate__"):
+            if isinstance(fn, (ast.FunctionDef, ast.AsyncFunctionDef)) and fn.name not in ("__init__", "__setstate__", "__getstate__") \
+                    and not (fn.name in inlined and not any(fn.name in private_calls(o) for cc in chain for o in cc.body
+                                                            if isinstance(o, ast.FunctionDef)
+                                                            and o.name not in ("__init__", "__setstate__"))):
                 for n in ast.walk(fn):
                     tgts = []
                     if isinstance(n, ast.Assign):
@@ -762,6 +950,7 @@ def _hook_row(cls: ast.ClassDef, ancestors=()):
 
 def pickle_rows(repo: Path):
     classes: dict = {}
+    mods: dict = {}
     for d in PICKLE_DIRS:
         base = repo / d
         if not base.is_dir():
@@ -769,7 +958,10 @@ def pickle_rows(repo: Path):
         for f in sorted(base.rglob("*.py")):
             rel = str(f.relative_to(repo))
             tree = parse(repo, rel)
+            mod = Mod(tree, repo, rel)
             for n in ast.walk(tree):
+                if isinstance(n, ast.ClassDef):
+                    mods[id(n)] = mod
                 if isinstance(n, ast.Call) and u(n.func) in ("copyreg.pickle", "copyreg.constructor"):
                     fail(n, f"{rel}: copyreg registration")
                 if isinstance(n, ast.ClassDef):
@@ -790,7 +982,7 @@ def pickle_rows(repo: Path):
 
     rows = []
     for name in sorted(classes):
-        row = _hook_row(classes[name][0], ancestors(classes[name][0], (name,)))
+        row = _hook_row(classes[name][0], ancestors(classes[name][0], (name,)), mods)
         if row is not None:
             rows.append(row)
     return rows
@@ -802,8 +994,12 @@ GROUP = "pyxel/pipelines/model_group.py"
 def group_runs_enabled_row(tree) -> bool:
     """ModelGroup.__iter__ yields the models whose `enabled` is set, in the order of self.models, and ModelGroup.run
     executes what iterating over the group yields (`for model in self: ... model(detector)`)"""
-    it = find_func(tree, "__iter__", "ModelGroup")
-    body = body_no_doc(it)
+    fit = fn_of(tree, "__iter__", "ModelGroup")
+    it = fit.node
+    body = [st for st in it.body if not (isinstance(st, ast.Assign) and isinstance(st.targets[0], ast.Name))]   # aliases are resolved
+    for n in ast.walk(it):
+        if isinstance(n, (ast.For, ast.comprehension)) and hasattr(n.iter, "_pos"):
+            n.iter = fit.R(n.iter)
     ok = False
 
     def filtered(gen, elt) -> bool:
@@ -827,8 +1023,9 @@ def group_runs_enabled_row(tree) -> bool:
         ok = isinstance(g, (ast.GeneratorExp, ast.ListComp)) and filtered(g.generators, g.elt)
     if not ok:
         fail(it, "ModelGroup.__iter__ must yield the models of self.models whose `enabled` is set, in order")
-    run = find_func(tree, "run", "ModelGroup")
-    loops = [n for n in ast.walk(run) if isinstance(n, ast.For) and u(n.iter) == "self"]
+    frun = fn_of(tree, "run", "ModelGroup")
+    run = frun.node
+    loops = [n for n in ast.walk(run) if isinstance(n, ast.For) and u(frun.R(n.iter)) == "self"]
     if len(loops) != 1 or not isinstance(loops[0].target, ast.Name):
         fail(run, "ModelGroup.run must execute `for model in self`")
     v = loops[0].target.id
@@ -836,7 +1033,7 @@ def group_runs_enabled_row(tree) -> bool:
              and [u(a) for a in n.args] + [u(k.value) for k in n.keywords] == ["detector"]]
     if len(execs) != 1:
         fail(loops[0], "ModelGroup.run must call every model it iterates over exactly once with the detector")
-    if any(isinstance(n, ast.For) and n is not loops[0] and u(n.iter) in ("self.models", "self") for n in ast.walk(run)):
+    if any(isinstance(n, ast.For) and n is not loops[0] and u(frun.R(n.iter)) in ("self.models", "self") for n in ast.walk(run)):
         fail(run, "a second loop over the models in ModelGroup.run")
     return True
 
@@ -887,7 +1084,7 @@ def render(seq, prod, custom, bind="BindPosition", same=True, names=True, types=
 
 
 def rows(repo: Path) -> dict:
-    dask, obs, misc = parse(repo, DASK), parse(repo, OBS), parse(repo, MISC)
+    dask, obs, misc = (Mod(parse(repo, f), repo, f) for f in (DASK, OBS, MISC))
     bind, _ = bind_row(dask)
     same = same_mapping_row(dask)
     names = names_order_row(obs)
@@ -896,10 +1093,10 @@ def rows(repo: Path) -> dict:
     seq = sequential_row(misc, obs)
     custom = custom_row(misc)
     fidx = file_index_row(dask)
-    isl = islands_row(parse(repo, ARCHI))
-    bfe = bfe_row(parse(repo, UDEF))
+    isl = islands_row(Mod(parse(repo, ARCHI), repo, ARCHI))
+    bfe = bfe_row(Mod(parse(repo, UDEF), repo, UDEF))
     hooks = pickle_rows(repo)
-    group_runs_enabled_row(parse(repo, GROUP))
+    group_runs_enabled_row(Mod(parse(repo, GROUP), repo, GROUP))
     return dict(seq=seq, prod=prod, custom=custom, bind=bind, same=same, names=names, types=types, tuples=True,
                 fidx=fidx, isl=isl, bfe=bfe, hooks=hooks)
 
